@@ -11,8 +11,13 @@
    Layer L3 (parameters <-> types, models: Model/TypePrint.v): for EVERY type T of the fragment Model/Ty.v that
    the Go constructors can build, resolving the expression that T prints (its name and, parameter by parameter,
    what Parameters() writes, nested types recursively) through the positional creators yields T again, and that
-   result prints the same text. The layer between (tokens <-> expressions, the parser proper) has no theorem
-   yet: the direct check and the correspondence run cover it (partial).
+   result prints the same text.
+
+   Layer L2 (tokens <-> expressions, model: Model/TokenParse.v of parser.go): for EVERY printable expression
+   (literals, type names with parameter lists, arrays, hashes with `=>` entries, nested to any depth) the parser
+   reads exactly the tokens the expression prints as and yields the expression (section "the parser" at the end of this
+   file), composed with layer L1 into an end-to-end statement at the level of characters for literal values
+   (print, lex, parse gives the value back).
 
    Container values (model: Model/ValuePrint.v): a value is a graph of Array / Hash instances in which one
    instance may sit at several positions (aliasing, e.g. the library's shared px.EmptyArray); the printer walks
@@ -20,8 +25,8 @@
    tokens of the tree the graph stands for and never the `<recursive reference>` marker. *)
 From Coq Require Import ZArith NArith Bool List Permutation.
 From PcoreV Require Import Model.Base Model.Ty Model.QuoteLex Model.TypePrint Model.TokenParse Model.ValuePrint
-  Model.ObjectPrint Proofs.QuoteLexUtf8 Proofs.QuoteLexProofs Proofs.TypePrintProofs Proofs.ValuePrintProofs
-  Proofs.ObjectPrintProofs.
+  Model.ObjectPrint Model.LiteralText Model.TypeExpr Proofs.QuoteLexUtf8 Proofs.QuoteLexProofs Proofs.TypePrintProofs Proofs.ValuePrintProofs
+  Proofs.ObjectPrintProofs Proofs.TokenParseProofs Proofs.LiteralTextProofs Proofs.TypeExprProofs.
 Import ListNotations.
 Open Scope N_scope.
 
@@ -318,3 +323,120 @@ Proof.
   split; [cbn; tauto|].
   intro H. cbn in H. repeat (destruct H as [H|H]; [discriminate H|]). exact H.
 Qed.
+
+(* ------------------------------------------------------------------------------------------ *)
+(* ---- the parser: tokens <-> expressions (layer L2) ---- *)
+
+(* Which expressions are printable (Model/TokenParse.v `printable`): integers of 64 bits, regexps that compile
+   (rx_ok = regexp.Compile succeeds, an oracle), no bare `k => v` entry outside a hash, no empty parameter list;
+   everything else - undef, default, booleans, floats (the token text is kept), strings of any content, type names,
+   arrays, hashes, parameter lists, nested to any depth - without condition.
+   For EVERY printable expression v, EVERY continuation k whose first token does not open an argument list (in printed
+   text the token after a value is one of , ] } => or the end) and every fuel >= 2 tokens' worth: element() +
+   handleTypeArgs() on tokens_of v ++ k yield v, consume exactly tokens_of v and return the first token of k as the
+   look-ahead, leaving the rest of k. *)
+Theorem C05_parse_print :
+  forall (rx_ok : str -> bool) (v : pval), printable rx_ok v = true ->
+  forall (k : list tok) (fuel : nat), no_args (fst (next k)) = true -> 2 * length (tokens_of v) <= fuel ->
+    pvalue rx_ok fuel (fst (next (tokens_of v ++ k))) (snd (next (tokens_of v ++ k)))
+    = POk (Some v, fst (next k), snd (next k)).
+Proof. exact pvalue_tokens_of. Qed.
+Print Assumptions C05_parse_print.
+
+(* Hence types.Parse on the tokens of a printable expression (with the fuel parse_tokens gives itself) is that expression. *)
+Theorem C05_parse_print_whole :
+  forall (rx_ok : str -> bool) (v : pval), printable rx_ok v = true -> parse_tokens rx_ok (tokens_of v) = POk v.
+Proof. exact parse_tokens_of. Qed.
+Print Assumptions C05_parse_print_whole.
+
+(* Why `printable` excludes an empty parameter list and a bare entry: `Name[]` is a syntax error, and an entry in an
+   array is read back as a hash. *)
+Example C05_unprintable_expressions :
+  parse_tokens (fun _ => true) (tokens_of (PVType [65]%N (Some []))) = PErr /\
+  parse_tokens (fun _ => true) (tokens_of (PVArr [PVEntry PVUndef PVDefault])) = POk (PVArr [PVHash [(PVUndef, PVDefault)]]).
+Proof. split; vm_compute; reflexivity. Qed.
+
+(* Non-vacuity: Struct[{'a' => Optional[Integer[0, 5]], NotUndef['b'] => /x/}] followed by `, 1.5]` *)
+Example C05_parse_print_nonvacuous :
+  let v := PVType [83;116;114;117;99;116]%N
+             (Some [PVHash [(PVStr [97]%N, PVType [79;112;116]%N (Some [PVType [73;110;116]%N (Some [PVInt 0; PVInt 5])]));
+                            (PVType [78;111;116]%N (Some [PVStr [98]%N]), PVRegexp [120]%N)]]) in
+  let k := [KComma; KFloat [49;46;53]%N; KRBracket] in
+  printable (fun _ => true) v = true /\ length (tokens_of v) = 23 /\
+  pvalue (fun _ => true) 46 (fst (next (tokens_of v ++ k))) (snd (next (tokens_of v ++ k)))
+  = POk (Some v, KComma, [KFloat [49;46;53]%N; KRBracket]).
+Proof. repeat split; vm_compute; reflexivity. Qed.
+
+(* ---- the output of the type printer is printable (layers L2 + L3 meet) ---- *)
+
+(* Model/TypeExpr.v: expr_of_ty T = the expression T.String() stands for (name + Parameters(), nested types recursively;
+   the recursion of print_ty with expressions for texts). For EVERY type T whose integer bounds are 64 bit integers and
+   whose regexps compile (ty_lits_ok; any float rendering, any undef-acceptance oracle) that expression is printable ... *)
+Theorem C05_type_expression_printable :
+  forall (float_text : Z -> str) (accepts_undef : ty -> bool) (rx_ok : str -> bool) (T : ty),
+    ty_lits_ok rx_ok T = true -> printable rx_ok (expr_of_ty float_text accepts_undef T) = true.
+Proof. exact expr_of_ty_printable. Qed.
+Print Assumptions C05_type_expression_printable.
+
+(* ... so the parser makes exactly that expression of the tokens a type prints as. *)
+Theorem C05_parse_type_tokens :
+  forall (float_text : Z -> str) (accepts_undef : ty -> bool) (rx_ok : str -> bool) (T : ty),
+    ty_lits_ok rx_ok T = true ->
+    parse_tokens rx_ok (tokens_of (expr_of_ty float_text accepts_undef T)) = POk (expr_of_ty float_text accepts_undef T).
+Proof. exact parse_tokens_of_ty. Qed.
+Print Assumptions C05_parse_type_tokens.
+
+(* Non-vacuity: Struct[{NotUndef['a'] => Optional[Integer[0, 5]], 'c' => Array[0, 0]}] *)
+Example C05_type_expression_nonvacuous :
+  let au := fun t : ty => match t with TOptional _ | TAny | TUndef => true | _ => false end in
+  let T := TStruct [ ([97]%N, (TStringVal [97]%N, TOptional (TInteger 0 5)));
+                     ([99]%N, (TStringVal [99]%N, TArray TUnit 0 0)) ] in
+  ty_lits_ok (fun _ => true) T = true /\
+  expr_of_ty (fun _ => []) au T =
+    PVType [83;116;114;117;99;116]%N
+      (Some [PVHash [(PVType [78;111;116;85;110;100;101;102]%N (Some [PVStr [97]%N]),
+                      PVType [79;112;116;105;111;110;97;108]%N (Some [PVType [73;110;116;101;103;101;114]%N (Some [PVInt 0; PVInt 5])]));
+                     (PVStr [99]%N, PVType [65;114;114;97;121]%N (Some [PVInt 0; PVInt 0]))]]) /\
+  lex_text ascii_letter (print_ty (fun _ => []) au T) = LOk (tokens_of (expr_of_ty (fun _ => []) au T)) [].
+Proof. repeat split; vm_compute; reflexivity. Qed.
+
+(* ---- literal values, end to end at the level of characters (layers L1 + L2) ---- *)
+
+(* Model/LiteralText.v: print_lit = px.ToString2(v, Program) of a literal value; lex_all = the whole lexer (nextToken
+   until the end token) built on the token readers of layer L1.
+   The fragment `lit_ok`: undef, default, booleans, 64 bit integers, strings that are text without U+FFFD (open
+   finding), regexps RegexpQuote can represent (open finding), arrays and hashes of these nested to any depth.
+   For EVERY such v and EVERY text k that follows it (nothing, or text starting with , ] } or a space): the lexer
+   reads print_lit v ++ k as the tokens of v followed by the tokens of k. *)
+Theorem C05_lex_literal_text :
+  forall (is_letter : N -> bool) (v : pval), lit_ok v = true ->
+  forall (k : str) (ts : list tok) (f : nat) (r : str), lit_stop k = true -> lex_all is_letter f k = LOk ts r ->
+    lex_all is_letter (length (tokens_of v) + f) (print_lit v ++ k) = LOk (tokens_of v ++ ts) r.
+Proof. exact lex_print_lit. Qed.
+Print Assumptions C05_lex_literal_text.
+
+(* print, lex, parse: the value comes back. Given lit_ok, `printable rx_ok v` only adds that the regexps in v compile
+   (regexp.Compile, an oracle); the fuel of the lexer is one unit per token, any larger amount gives the same. *)
+Theorem C05_literal_round_trip :
+  forall (is_letter : N -> bool) (v : pval) (f : nat), lit_ok v = true -> length (tokens_of v) < f ->
+    exists ts, lex_all is_letter f (print_lit v) = LOk ts [] /\
+               forall rx_ok, printable rx_ok v = true -> parse_tokens rx_ok ts = POk v.
+Proof. exact parse_lex_print_lit. Qed.
+Print Assumptions C05_literal_round_trip.
+
+(* Non-vacuity: [-12, 'a', {undef => /x/, true => []}, "\u{1}", default] *)
+Example C05_literal_round_trip_nonvacuous :
+  let v := PVArr [PVInt (-12); PVStr [97]%N; PVHash [(PVUndef, PVRegexp [120]%N); (PVBool true, PVArr [])]; PVStr [1]%N; PVDefault] in
+  lit_ok v = true /\
+  print_lit v = [91;45;49;50;44;32;39;97;39;44;32;123;117;110;100;101;102;32;61;62;32;47;120;47;44;32;116;114;117;101;32;61;62;32;
+                 91;93;125;44;32;34;92;117;123;49;125;34;44;32;100;101;102;97;117;108;116;93]%N /\
+  lex_text ascii_letter (print_lit v) = LOk (tokens_of v) [] /\
+  parse_tokens (fun _ => true) (tokens_of v) = POk v.
+Proof. repeat split; vm_compute; reflexivity. Qed.
+
+(* Outside the fragment, on the model: a float is printed and read by Go's fmt / strconv (the model keeps the token
+   text); a string with U+FFFD is not lexed (open finding). *)
+Example C05_literal_outside_fragment :
+  lit_ok (PVFloat [49;46;53]%N) = false /\ lit_ok (PVStr [239;191;189]%N) = false /\
+  lex_text ascii_letter (print_lit (PVStr [239;191;189]%N)) = LErr EBadToken.
+Proof. repeat split; vm_compute; reflexivity. Qed.
